@@ -31,25 +31,36 @@ fn resolve_is_clip() {
     assert!(r == (cs - ps..ce - ps));
 }
 
-const N: usize = 6;
+const MAXB: usize = 3 * 4;
 
-/// C14 (bounded, ASCII text <= 6 bytes): the line an entry starts on is 1 + the number of LF before its span, and
-/// as_str() is exactly the entry's slice of the original text.
+/// C14 (bounded: text of <= 4 characters over {LF, CR, ' ', 'a', 'あ' (3 bytes)}, every span on character boundaries):
+/// the line an entry starts on is 1 + the number of LF among the BYTES before its span (multi-byte text before the
+/// entry must not shift it), and as_str() is exactly the entry's slice of the original text.
 #[kani::proof]
-#[kani::unwind(8)]
+#[kani::unwind(14)]
 fn parsed_context_line_and_slice() {
-    let mut buf = [0u8; N];
-    let len: usize = kani::any();
-    kani::assume(len <= N);
-    for i in 0..N {
-        let c: u8 = kani::any();
-        kani::assume(c == b'\n' || c == b'\r' || c == b' ' || c == b'a');
-        buf[i] = c;
+    let mut buf = [0u8; MAXB];
+    let n: usize = kani::any();
+    kani::assume(n <= 4);
+    let mut len = 0;
+    for i in 0..4 {
+        if i < n {
+            let k: u8 = kani::any();
+            kani::assume(k < 5);
+            match k {
+                0 => { buf[len] = b'\n'; len += 1; }
+                1 => { buf[len] = b'\r'; len += 1; }
+                2 => { buf[len] = b'a'; len += 1; }
+                3 => { buf[len] = b' '; len += 1; }
+                _ => { buf[len] = 0xE3; buf[len + 1] = 0x81; buf[len + 2] = 0x82; len += 3; }
+            }
+        }
     }
+    // SAFETY: a concatenation of valid UTF-8 encoded characters
     let initial = unsafe { std::str::from_utf8_unchecked(&buf[..len]) };
     let s: usize = kani::any();
     let e: usize = kani::any();
-    kani::assume(s <= e && e <= len);
+    kani::assume(s <= e && e <= len && initial.is_char_boundary(s) && initial.is_char_boundary(e));
     let pc = ParsedContext { initial, span: s..e };
     let mut lines = 1;
     let mut i = 0;
@@ -64,4 +75,5 @@ fn parsed_context_line_and_slice() {
     assert!(sl.len() == e - s);
     assert!(sl.as_ptr() == initial[s..].as_ptr());
     kani::cover!(lines == 3 && e > s);
+    kani::cover!(len > 4 && s == 4);
 }
